@@ -421,13 +421,12 @@ theorem witness_empty_chunk_size_rejected :
 
 /-! ## nothing after a reject (connection level)
 
-Not claimed at connection level: "the set of requests *served* is the same for every
-segmentation".  That statement is false of the current dispatcher when the bytes completing a
-body-carrying request are read together with a later request whose body is still incomplete
-(DESIGN §6 F1c: `send_response` consults the payload slot of the later request and closes;
-replay in docs/C01.md, O-C).  It is a defect of the dispatcher's pipelining logic (model B,
-properties C02/C03), outside `Model/H1Conn.lean`, whose events are single reads each followed by
-one complete `poll_request` + response cycle.  What *is* proved for every event history is the
+The connection model's events are single reads, each followed by one complete
+`poll_request` + response cycle; the dispatcher's queue of pipelined messages is not part of it
+(model B, properties C02/C03).  The correspondence shows that, with the F1c repair (`4ad0000`),
+the implementation agrees with this model on every read schedule, so segmentation independence
+at connection level follows from `C01_codec_segmentation` through `connStep`'s use of `feed`.
+What *is* proved for every event history is the
 property's last clause: -/
 
 /-- **C01_nothing_after_reject.**  For every history of reads and EOFs: once the decode loop has
